@@ -142,6 +142,9 @@ def mk_swath(g):
     dims = ("y", "x")[-lon.ndim:]
     if kind == "xr":
         return SwathDefinition(xr.DataArray(lon, dims=dims), xr.DataArray(lat, dims=dims), **kw)
+    if kind == "xrattr":     # DataArrays carrying a precomputed hash (get_array_hashable returns it instead of the bytes)
+        return SwathDefinition(xr.DataArray(lon, dims=dims, attrs={"hash": g["attr"][0].encode()}),
+                               xr.DataArray(lat, dims=dims, attrs={"hash": g["attr"][1].encode()}), **kw)
     if kind == "xrdask":
         ch = g.get("chunks", 2)
         return SwathDefinition(xr.DataArray(da.from_array(lon, chunks=ch), dims=dims),
@@ -178,13 +181,18 @@ def digest(o):
 
 def swath_kind(s):
     if isinstance(s.lons, xr.DataArray):
+        if "hash" in s.lons.attrs and "hash" in s.lats.attrs:
+            return 3
         return 2 if isinstance(s.lons.data, da.Array) else 1
     return 0
 
 
 def swath_names(s):
-    if swath_kind(s) == 2:
+    k = swath_kind(s)
+    if k == 2:
         return [name_id(s.lons.data.name), name_id(s.lats.data.name)]
+    if k == 3:
+        return [name_id(b"attr:" + s.lons.attrs["hash"]), name_id(b"attr:" + s.lats.attrs["hash"])]
     return [0, 0]
 
 
